@@ -36,6 +36,9 @@ def correspondence(ctx, batch):
     registry = stages.make_registry()
     for k in range(ctx.n(120, 1500)):
         c = many_roots_case(rng) if k % 12 == 0 else gen_case(rng)
+        if k % 12 == 6:
+            from .. import gen as _gen
+            c = {"inputs": [["Quotes", [_gen.gen_many_referrers(rng)]]], "cmps": [["percent", 7, 10], ["number", 10]], "job": c["job"]}
         stages.stage_render(batch, [tuple(x) for x in c["inputs"]], registry, worker.cmps_from(c["cmps"]), [c["job"]])
 
 
@@ -102,6 +105,11 @@ def falsify(ctx):
     yield from cli_pattern_cases(ctx, rng)
     # the same hash seed in many fresh processes (memory layout varies), then different seeds
     id_cases = [many_roots_case(rng) for _ in range(ctx.n(6, 40))] + [gen_case(rng) for _ in range(ctx.n(10, 60))]
+    from .. import gen as _gen
+    for _ in range(ctx.n(4, 30)):
+        job = common.gen_job(rng)
+        job["preamble"] = None
+        id_cases.append({"inputs": [["Quotes", [_gen.gen_many_referrers(rng)]]], "cmps": [["percent", 7, 10], ["number", 10]], "job": job})
     for c in id_cases:
         ctx.case(("many-processes", repr(c)), nontrivial=True)
     yield from compare(id_cases, [0] * ctx.n(10, 24) + [1, 2], ctx.repo)
